@@ -212,6 +212,9 @@ def symbolic_run(scenario, cfg, tier, *, max_paths=400, obl_timeout_ms=None, val
         V = Vals(c)
         P = Prover(c, timeout_ms=obl_timeout_ms)
         obs = scenario(V, P, cfg)
+        for text, cond in getattr(c, "lib_preconditions", []):
+            # preconditions of stubbed library routines that the code under test has to establish
+            P.holds("library-precondition:" + text, cond, kind="library-precondition")
         r, s = c.check(timeout_ms=obl_timeout_ms)
         if str(r) == "unknown":
             # vacuity guard only: a solver-verified witness with pinned inputs shows the path is feasible
@@ -375,5 +378,8 @@ class NumProver:
             self.failed.append((label, "false"))
 
     def verdict(self, label):
+        if label.startswith("library-precondition:"):
+            # the stubbed routine was called outside its contract: on the real library that shows as wrong results
+            return dict(reproduced=bool(self.failed), detail=dict(failed=["%s: %s" % f for f in self.failed][:8], clauses=self.n))
         hit = [f for f in self.failed if f[0] == label or label.startswith(f[0]) or f[0].startswith(label)]
         return dict(reproduced=bool(hit), detail=dict(failed=["%s: %s" % f for f in self.failed][:8], clauses=self.n))
